@@ -25,6 +25,12 @@ def cells(tier):
         # a stopped task parked in its (slow, async) cancel callback when the next stop arrives
         sc = scen(pool(size, "SimpleTaskPool", ecb="plain", ccb="slow", slow_ids=[1, 2]), [[S("S", 3)], [["stop", 1], ["stop", 1]], [["stop_all"]]], outcomes=["ret"])
         out.append(cell(f"s{size} S3 stop1,stop1 stop_all slowccb", sc, MON))
+    # stop_all() / stop(n) in a pool shrunk below the number of running tasks
+    for new in [0, 1]:
+        sc = scen(pool(3, "SimpleTaskPool", ecb="plain", ccb="plain"), [[S("S", 3)], [["set_size", new]], [["stop_all"]]], outcomes=["ret"])
+        out.append(cell(f"s3->{new} S3|shrink|stop_all", sc, MON))
+    sc = scen(pool(3, "SimpleTaskPool", ecb="plain", ccb="plain"), [[S("S", 3)], [cancel(rid("S", 1))], [["set_size", 1]], [["stop", 2]]], outcomes=["ret"])
+    out.append(cell("s3->1 S3 cancel1|shrink|stop(2)", sc, MON))
     # a locked pool whose accepted start() still has a spawn queued: the fresh task is stopped before/after its first step
     for size in [1, 2]:
         sc = scen(pool(size, "SimpleTaskPool", ecb="plain", ccb="plain"), [[S("S", size + 1)], [LOCK], [["stop", 1], ["stop", 1]]], outcomes=["ret"])
